@@ -1,9 +1,162 @@
 import Lean.Data.Json
-/-! Line-protocol handler for property C05 (model side of the correspondence). -/
+import SpoxModel.Model.Singleton
+/-! Line-protocol handler for property C05 (model side of the correspondence): a constructor call in,
+    the model's singleton one-node model, the hand-built form, and `construct` (with the inference
+    answer observed on the real run plugged in as the judgement) out. -/
 namespace Drv.C05
-open Lean
+open Lean Sing
 
-/-- One request (a JSON value) in, one response (a JSON value) out. -/
-def handle (_req : Json) : Json := Json.mkObj [("error", "unimplemented")]
+partial def parseTy (j : Json) : Except String Ty := do
+  if let .ok e := j.getObjValAs? Nat "t" then
+    let sj ← j.getObjVal? "s"
+    match sj with
+    | .null => return .tensor e none
+    | .arr ds =>
+      let dims ← ds.toList.mapM (fun d => match d with
+        | .null => pure Dim.unk
+        | .str s => pure (Dim.sym s)
+        | .num _ => match d.getInt? with
+          | .ok n => pure (Dim.const n)
+          | .error e => throw e
+        | _ => throw "bad dim")
+      return .tensor e (some dims)
+    | _ => throw "bad shape"
+  else if let .ok t := j.getObjVal? "seq" then
+    return .seq (← parseTy t)
+  else if let .ok t := j.getObjVal? "opt" then
+    return .opt (← parseTy t)
+  else throw "bad type"
+
+def dimJ : Dim → Json
+  | .const n => toJson n
+  | .sym s => Json.str s
+  | .unk => Json.null
+
+partial def tyJ : Ty → Json
+  | .tensor e sh => Json.mkObj [("t", toJson e),
+      ("s", match sh with | none => Json.null | some ds => Json.arr (ds.map dimJ).toArray)]
+  | .seq t => Json.mkObj [("seq", tyJ t)]
+  | .opt t => Json.mkObj [("opt", tyJ t)]
+
+def otyJ : Option Ty → Json
+  | none => Json.null
+  | some t => tyJ t
+
+def parseOptTy (j : Json) : Except String (Option Ty) :=
+  match j with
+  | .null => pure none
+  | _ => some <$> parseTy j
+
+def parseKind (s : String) : Except String Kind :=
+  match s with
+  | "single" => pure .single
+  | "optional" => pure .optional
+  | "variadic" => pure .variadic
+  | _ => throw "bad kind"
+
+def parseSlot (j : Json) : Except String Slot := do
+  let a ← j.getArr?
+  let n ← (a.getD 0 Json.null).getStr?
+  let k ← (a.getD 1 Json.null).getStr?
+  return ⟨n, ← parseKind k⟩
+
+def parseArg (j : Json) : Except String Arg :=
+  match j with
+  | .null => pure .none
+  | .arr vs => do
+    let l ← vs.toList.mapM (fun v => v.getNat?)
+    return .list l
+  | _ => do return .var (← j.getNat?)
+
+def parseSig (j : Json) : Except String Sig := do
+  let ins ← j.getObjValAs? (Array Json) "inputs"
+  let outs ← j.getObjValAs? (Array Json) "outputs"
+  return {
+    op := ← j.getObjValAs? String "op"
+    domain := ← j.getObjValAs? String "domain"
+    version := ← j.getObjValAs? Nat "version"
+    inputs := ← ins.toList.mapM parseSlot
+    outputs := ← outs.toList.mapM parseSlot
+    minInput := ← j.getObjValAs? Nat "min_in"
+    minOutput := ← j.getObjValAs? Nat "min_out" }
+
+def parseOptStr (j : Json) : Except String (Option String) :=
+  match j with
+  | .null => pure none
+  | .str s => pure (some s)
+  | _ => throw "bad optional string"
+
+def parseCall (j : Json) : Except String Call := do
+  let sig ← parseSig (← j.getObjVal? "sig")
+  let args ← (← j.getObjValAs? (Array Json) "args").toList.mapM parseArg
+  let attrs ← (← j.getObjValAs? (Array Json) "attrs").toList.mapM (fun a => do
+    let p ← a.getArr?
+    let n ← (p.getD 0 Json.null).getStr?
+    let v ← parseOptStr (p.getD 1 Json.null)
+    return (n, v))
+  let vars ← (← j.getObjValAs? (Array Json) "vars").toList.mapM (fun a => do
+    let p ← a.getArr?
+    let id ← (p.getD 0 Json.null).getNat?
+    let ty ← parseOptTy (p.getD 1 Json.null)
+    let val ← parseOptStr (p.getD 2 Json.null)
+    return (id, ({ ty := ty, val := val } : VarInfo)))
+  let ov ← j.getObjValAs? Nat "out_variadic"
+  return {
+    sig := sig, args := args, attrs := attrs, outVariadic := ov
+    info := fun v => ((vars.lookup v).getD { ty := none, val := none }) }
+
+def nodeJ (n : NodeView) : Json := Json.mkObj [
+  ("op", n.op), ("domain", n.domain), ("inputs", toJson n.inputs), ("outputs", toJson n.outputs),
+  ("attrs", Json.arr (n.attrs.map (fun p => Json.arr #[Json.str p.1, Json.str p.2])).toArray)]
+
+def modelJ (m : OneNodeModel) : Json := Json.mkObj [
+  ("node", nodeJ m.node), ("node_name", m.nodeName),
+  ("ginputs", Json.arr (m.graphInputs.map (fun p => Json.arr #[Json.str p.1, otyJ p.2])).toArray),
+  ("inits", Json.arr (m.inits.map (fun p => Json.arr #[Json.str p.1, Json.str p.2])).toArray),
+  ("goutputs", toJson m.graphOutputs),
+  ("opset", Json.arr #[Json.str m.opset.1, toJson m.opset.2])]
+
+/-- the names the harness' own hand-built node uses: `i<var id>` / `o<index>` -/
+def handNames : Ref → String
+  | .inp v => "i" ++ toString v
+  | .out i => "o" ++ toString i
+
+def parseInfer (j : Json) : Except String (Option (List (String × Option Ty))) :=
+  match j with
+  | .str _ => pure none   -- "reject"
+  | .arr es => do
+    let l ← es.toList.mapM (fun e => do
+      let p ← e.getArr?
+      let n ← (p.getD 0 Json.null).getStr?
+      let t ← parseOptTy (p.getD 1 Json.null)
+      return (n, t))
+    return some l
+  | _ => throw "bad infer"
+
+def handle (req : Json) : Json :=
+  match (do
+    let c ← parseCall req
+    let inferJ := (req.getObjVal? "infer").toOption.getD Json.null
+    let base : List (String × Json) := [
+      ("kinds_ok", toJson (kindsOk c.sig.inputs c.args)),
+      ("wf", toJson c.wfB),
+      ("clash", toJson (scopeClash c.items [])),
+      ("untyped", toJson (anyUntyped c)),
+      ("singleton", modelJ (singleton c)),
+      ("pruned", modelJ (prune (singleton c))),
+      ("hand", modelJ (handModel handNames c))]
+    let extra ← match inferJ with
+      | .null => pure []
+      | _ => do
+        let ans ← parseInfer inferJ
+        let r := construct (fun _ => ans) c
+        pure [("construct", match r with
+          | .error .kind => Json.str "kind"
+          | .error .inference => Json.str "inference"
+          | .ok l => Json.arr (l.map (fun (p : String × Option Ty) =>
+              Json.arr #[Json.str p.1, otyJ p.2])).toArray)]
+    return Json.mkObj (base ++ extra)) with
+  | .ok j => j
+  | .error e => Json.mkObj [("error", e)]
 
 end Drv.C05
